@@ -126,9 +126,12 @@ class Case:
         return out
 
 
-def canon_events(evs, known):
+def canon_events(evs, known, sent=None):
     out = []
     for e in evs:
+        if e[0] == 'S' and sent is not None and bytes.fromhex(e[1]) == sent:
+            out.append([3])
+            continue
         if e[0] == 'D':
             b = bytes.fromhex(e[1])
             out.append([0, known.index(b)] if b in known else [0, -1] + list(b))
@@ -532,8 +535,8 @@ def hs_cases(ctx, real):
     return cases
 
 
-def canon_impl_hs(o, known):
-    evs = canon_events(o['events'], known)
+def canon_impl_hs(o, known, sent):
+    evs = canon_events(o['events'], known, sent)
     if [2] in evs:
         return (evs, o['live'])
     for k, t in (('live', bool), ('restored', bool), ('wlen', int)):
@@ -557,6 +560,7 @@ def canon_model_hs(m):
 def model_hs(ctx, cases, chal):
     pre, exprs, shape = [], [], []
     nil = '(@nil (list Z))'
+    pre.append('Definition sent : list Z := %s.' % zl(struct.pack('>I', len(chal)) + chal))
     for k, c in enumerate(cases):
         valid = [bytes.fromhex(h) for h in c.hs['valid']]
         echo = [bytes.fromhex(h) for h, m in c.hs['echo'].items() if m in ECHO_GOOD]
@@ -570,7 +574,7 @@ def model_hs(ctx, cases, chal):
         for i in range(0, len(c.chunkings), step):
             part = c.chunkings[i:i + step]
             ll = '[' + ';'.join(zl(l[:-1]) if len(l) > 1 else '(@nil Z)' for l in part) + ']'
-            exprs.append('map (fun l => srun_lens o%d c%d t%d l s%d) %s' % (k, k, k, k, ll))
+            exprs.append('map (fun l => srun_lens o%d c%d t%d sent l s%d) %s' % (k, k, k, k, ll))
             shape.append((k, part))
     res = ctx.coq_eval(['DV.Model.Frame', 'DV.Model.Shake'], exprs, preamble='\n'.join(pre), chunk=14)
     out = [dict() for _ in cases]
@@ -585,7 +589,7 @@ def hs_oracle(ctx, c, runs, chal):
     sc = c.sc
     fail = sc.fail_at()
     corner = fail is None and sc.l5 == 0
-    sent = [[3] + list(struct.pack('>I', len(chal)) + chal)]
+    sent = [[3]]
     app = []
     for p in c.app:
         if p not in c.good:
@@ -661,10 +665,11 @@ def run_handshake(ctx, real):
                     chal = bytes.fromhex(e[1])[4:]
     chal = chal or b''
     ctx.note('handshake_challenge_text', chal.decode('ascii', 'replace'))
+    sent = struct.pack('>I', len(chal)) + chal   # abbreviated to [3] on both sides
     per_case = []
     hist = {}
     for c, r in zip(cases, impl['cases']):
-        dist = [canon_impl_hs(o, c.known) for o in r['distinct']]
+        dist = [canon_impl_hs(o, c.known, sent) for o in r['distinct']]
         runs = [(lens, dist[k], r['distinct'][k]) for lens, k in r['runs']]
         per_case.append(runs)
         hs_oracle(ctx, c, runs, chal)
